@@ -685,6 +685,155 @@ def judgeC20 (ops : List OpRec) : List String :=
     | _ => s) ({} : JSt)
   s.out
 
+/-! ### C16 -/
+
+structure Cfg where
+  clientId : Bytes := []
+  compression : Nat := 0
+  maxWait : Int := 100
+  minBytes : Int := 4096
+  maxBytes : Int := 32768
+  crc : Bool := true
+  storage : String := "none"
+  backoff : Nat := 100
+  retry : Nat := 1200
+  idle : Nat := 540000
+deriving Repr
+
+def Cfg.fmt (c : Cfg) : String :=
+  s!"ok client_id={toHexTok c.clientId} compression={c.compression} maxwait_ms={c.maxWait} minbytes={c.minBytes} maxbytes={c.maxBytes} crc={if c.crc then 1 else 0} storage={c.storage} backoff_ms={c.backoff} retry={c.retry} idle_ms={c.idle}"
+
+def Cfg.set (c : Cfg) (opt : String) (vals : List String) : Cfg :=
+  match opt, vals with
+  | "client_id", [v] => { c with clientId := (fromHex v).getD [] }
+  | "compression", [v] => { c with compression := v.toNat?.getD 0 }
+  | "fetch_max_wait", [a, b] =>
+    match a.toNat?, b.toNat? with
+    | some a, some b => if a * 1000 + b / 1000000 ≤ 2147483647 then { c with maxWait := ((a * 1000 + b / 1000000 : Nat) : Int) } else c
+    | _, _ => c
+  | "fetch_min_bytes", [v] => { c with minBytes := v.toInt?.getD 0 }
+  | "fetch_max_bytes", [v] => { c with maxBytes := v.toInt?.getD 0 }
+  | "crc", [v] => { c with crc := v == "1" }
+  | "storage", [v] => { c with storage := v }
+  | "retry_backoff_ms", [v] => { c with backoff := v.toNat?.getD 0 }
+  | "retry_max", [v] => { c with retry := v.toNat?.getD 0 }
+  | "idle_ms", [v] => { c with idle := v.toNat?.getD 0 }
+  | _, _ => c
+
+/-- the specification of a consumer builder: start from the defaults (or the given client's values), then the last
+    value given for each option; `none` = the duration does not fit (creation must fail with InvalidDuration) -/
+def consumerCfg (base : Cfg) (opts : List String) : Option Cfg :=
+  opts.foldl (fun (acc : Option Cfg) o => acc.bind fun c =>
+    let (k, v) := kv o
+    match k with
+    | "maxwait" => match v.splitOn ":" with
+      | [a, b] => match a.toNat?, b.toNat? with
+        | some a, some b => if a * 1000 + b / 1000000 ≤ 2147483647 then some { c with maxWait := ((a * 1000 + b / 1000000 : Nat) : Int) } else none
+        | _, _ => some c
+      | _ => some c
+    | "minbytes" => some { c with minBytes := v.toInt?.getD 0 }
+    | "maxbytes" => some { c with maxBytes := v.toInt?.getD 0 }
+    | "crc" => some { c with crc := v == "1" }
+    | "storage" => some { c with storage := v }
+    | "idle" => some { c with idle := v.toNat?.getD 0 }
+    | "clientid" => some { c with clientId := (fromHex v).getD [] }
+    | _ => some c) (some base)
+
+def producerCfg (base : Cfg) (opts : List String) : Option Cfg :=
+  opts.foldl (fun (acc : Option Cfg) o => acc.bind fun c =>
+    let (k, v) := kv o
+    match k with
+    | "compression" => some { c with compression := v.toNat?.getD 0 }
+    | "idle" => some { c with idle := v.toNat?.getD 0 }
+    | "clientid" => some { c with clientId := (fromHex v).getD [] }
+    | "acktimeout" => match v.splitOn ":" with
+      | [a, b] => match a.toNat?, b.toNat? with
+        | some a, some b => if a * 1000 + b / 1000000 ≤ 2147483647 then some c else none
+        | _, _ => some c
+      | _ => some c
+    | _ => some c) (some base)
+
+def lastOpt (opts : List String) (key : String) : Option String :=
+  (opts.filterMap fun o => let (k, v) := kv o; if k == key then some v else none).getLast?
+
+structure J16 where
+  client : Cfg := {}
+  cons : Option Cfg := none
+  prod : Option Cfg := none
+  prodAcks : Int := 1
+  prodTimeout : Int := 30000
+  out : List String := []
+
+def judgeC16 (ops : List OpRec) : List String :=
+  let v (s : J16) (sig : String) (op : OpRec) (d : String) : J16 :=
+    { s with out := s.out ++ [s!"{sig} | op {op.idx} `{" ".intercalate (op.toks.take 1)}`: {d}"] }
+  let s := ops.foldl (fun (s : J16) op =>
+    let reqs := framesOf op
+    match op.toks with
+    | ["client_new", _] => { s with client := {} }
+    | "c" :: "set" :: opt :: vals => if op.result == "ok" then { s with client := s.client.set opt vals } else s
+    | "k" :: "set" :: opt :: vals => if op.result == "ok" then { s with cons := s.cons.map (·.set opt vals) } else s
+    | "p" :: "set" :: opt :: vals => if op.result == "ok" then { s with prod := s.prod.map (·.set opt vals) } else s
+    | "consumer_create" :: from_ :: opts =>
+      let base : Cfg := if from_ == "client" then s.client else {}
+      match consumerCfg base opts with
+      | none => if op.result == "err InvalidDuration" then s else v s "C16-duration-not-rejected" op s!"result `{op.result}`"
+      | some want =>
+        if op.result == "ok" then
+          -- in force on the wire already during creation: client id in every header
+          let s := reqs.foldl (fun s (_, r) => if r.header.clientId == some want.clientId then s
+            else v s "C16-client-id-not-in-force" op s!"header client id {repr r.header.clientId}, configured {toHexTok want.clientId}") s
+          { s with cons := some want }
+        else s
+    | "producer_create" :: from_ :: opts =>
+      let base : Cfg := if from_ == "client" then s.client else {}
+      match producerCfg base opts with
+      | none => if op.result == "err InvalidDuration" then s else v s "C16-duration-not-rejected" op s!"result `{op.result}`"
+      | some want =>
+        if op.result == "ok" then
+          let s := reqs.foldl (fun s (_, r) => if r.header.clientId == some want.clientId then s
+            else v s "C16-client-id-not-in-force" op s!"header client id {repr r.header.clientId}, configured {toHexTok want.clientId}") s
+          let acks := ((lastOpt opts "acks").bind (·.toInt?)).getD 1
+          let to : Int := match lastOpt opts "acktimeout" with
+            | some x => match x.splitOn ":" with
+              | [a, b] => (((a.toNat?.getD 0) * 1000 + (b.toNat?.getD 0) / 1000000 : Nat) : Int)
+              | _ => 30000
+            | none => 30000
+          { s with prod := some want, prodAcks := acks, prodTimeout := to }
+        else s
+    | ["k", "get_config"] =>
+      match s.cons with
+      | some want => if op.result == want.fmt then s else v s "C16-consumer-setting-lost" op s!"getters show `{op.result}`, the builder was given `{want.fmt}`"
+      | none => s
+    | ["p", "get_config"] =>
+      match s.prod with
+      | some want => if op.result == want.fmt then s else v s "C16-producer-setting-lost" op s!"getters show `{op.result}`, the builder was given `{want.fmt}`"
+      | none => s
+    | ["c", "get_config"] => if op.result == s.client.fmt then s else v s "C16-client-setting-lost" op s!"getters show `{op.result}`, set `{s.client.fmt}`"
+    | ["poll"] =>
+      match s.cons with
+      | some want => reqs.foldl (fun s (_, r) => match r.body with
+          | .fetch _ mw mb ts =>
+            let s := if mw == want.maxWait && mb == want.minBytes then s else v s "C16-fetch-settings" op s!"max_wait {mw} min_bytes {mb}, configured {want.maxWait} {want.minBytes}"
+            let s := if r.header.clientId == some want.clientId then s else v s "C16-client-id-not-in-force" op "fetch header"
+            if ts.all fun (_, ps) => ps.all fun p => p.maxBytes == want.maxBytes then s else v s "C16-fetch-max-bytes" op s!"configured {want.maxBytes}"
+          | _ => s) s
+      | none => s
+    | "send_all" :: _ =>
+      match s.prod with
+      | some want => reqs.foldl (fun s (_, r) => match r.body with
+          | .produce a t ts =>
+            let s := if a == s.prodAcks && t == s.prodTimeout then s else v s "C16-produce-settings" op s!"acks {a} timeout {t}, configured {s.prodAcks} {s.prodTimeout}"
+            let s := if r.header.clientId == some want.clientId then s else v s "C16-client-id-not-in-force" op s!"produce header client id {repr r.header.clientId}, configured {toHexTok want.clientId}"
+            ts.foldl (fun s (_, ps) => ps.foldl (fun s (_, set) =>
+              match parseMessageSet set with
+              | some ms => if ms.all (fun m => (toU 1 m.attr) % 8 == want.compression) then s else v s "C16-compression-not-in-force" op s!"configured codec {want.compression}"
+              | none => s) s) s
+          | _ => s) s
+      | none => s
+    | _ => s) ({} : J16)
+  s.out
+
 def judge (prop : String) (lines : List String) : List String :=
   let ops := parseOps lines
   match prop with
@@ -695,6 +844,7 @@ def judge (prop : String) (lines : List String) : List String :=
   | "C11" => judgeC11 ops
   | "C14" => judgeC14 ops
   | "C20" => judgeC20 ops
+  | "C16" => judgeC16 ops
   | _ => []
 
 end Kafka.Judge
